@@ -117,6 +117,20 @@ def cases(tier, rng, ifaces):
             gid += 1
             for sched in schedules(rng, s, n, tier, True):
                 out.append(Case(f'PROC echo {n} {hx(s)} {",".join(map(str, sched)) or "-"}', no_crash, {'group': gid, 'kind': 'PROC-exh'}))
+    # 1b. compound messages with relative units / common commands: the path context must not leak from one
+    #     message into the next, whatever the chunking, and process must equal run message by message
+    from .C02 import gen_message as gen_compound
+    for _ in range(150 if tier == 'quick' else 2500):
+        iface = ifaces[rng.choice(['echo', 't1', 't1'] + [f'r{k}' for k in range(8)])]
+        msgs = [gen_compound(rng, iface, rng.randint(1, 5), 0.0)[0] for _ in range(rng.randint(2, 4))]
+        stream = b''.join(msgs)
+        n = rng.choice([x for x in iface.proc_sizes() if x >= max(len(m) for m in msgs)] or [256])
+        if max(len(m) for m in msgs) > n:
+            continue
+        gid += 1
+        for sched in schedules(rng, stream, n, tier, False):
+            out.append(Case(f'PROC {iface.name} {n} {hx(stream)} {",".join(map(str, sched)) or "-"}', no_crash, {'group': gid, 'kind': 'PROC-compound'}))
+        out.append(Case(f'RUN {iface.name} std ' + '|'.join(hx(m) for m in msgs), no_crash, {'group': gid, 'kind': 'RUN-permsg'}))
     # 2. generated streams of messages (valid, faulty, payload newlines), random buffers and schedules
     from .C06 import gen_message
     nstreams = 250 if tier == 'quick' else 3000
